@@ -12,6 +12,8 @@ class C16(TieCheck):
     pid = "C16"
     area = "Route"
     props = ["Props_C16.v"]
+    gentie = "C16"
+    extra_props = [("Compose", "Props_Compose2.v")]
     harness = "c16"
     # shared area: build only this property's closure (Node Lookup Tree Alloc Alloc2 Props_C16)
     coq_targets = ["Alloc.vo", "Alloc2.vo"]
